@@ -390,6 +390,7 @@ func C15(p *an.Prog, r *an.Report) {
 			r.Check(len(m) == 1, "C15.A5", an.FnKey(fn)+"/param "+prm.Name(), p.FnPos(fn), "all sinks agree on the unit of the parameter", ks...)
 		}
 	}
+	c15TimeScaling(p, r, "C15.A7")
 	// A6: published + expires provenance
 	n6 := 0
 	for _, fn := range fns {
@@ -704,4 +705,79 @@ func fieldNameOf(t types.Type, i int) string {
 		return st.Field(i).Name()
 	}
 	return "?"
+}
+
+// c15TimeScaling (A7; also C02.L9): millisecond/second counts written to the wire are taken with
+// the exact accessors.
+func c15TimeScaling(p *an.Prog, r *an.Report, rule string) {
+	// A7: millisecond/second counts are not derived from UnixNano(): its result is undefined for
+	// instants outside 1678..2262 (int64 nanoseconds), while the wire fields hold milliseconds up to
+	// 2^63 — UnixMilli()/Unix() are exact for every representable time
+	n7 := 0
+	for _, fn := range p.RepoFns {
+		if !an.InLib(fn) || len(fn.Blocks) == 0 {
+			continue
+		}
+		for _, b := range fn.Blocks {
+			for _, in := range b.Instrs {
+				c, ok := in.(*ssa.Call)
+				if !ok {
+					continue
+				}
+				callee := c.Call.StaticCallee()
+				if callee != nil && an.FnKey(callee) == "(time.Time).Unix" {
+					// seconds scaled up to a finer unit: the sub-second part of the instant is lost
+					// (an 8-byte millisecond field would carry a whole-second value)
+					n7++
+					up := ""
+					if c.Referrers() != nil {
+						for _, ref := range *c.Referrers() {
+							if bo, ok := ref.(*ssa.BinOp); ok && bo.Op == token.MUL {
+								for _, o := range []ssa.Value{bo.X, bo.Y} {
+									if k, ok := o.(*ssa.Const); ok && k.Value != nil && k.Int64() >= 1000 {
+										up = p.Pos(bo.Pos())
+									}
+								}
+							}
+						}
+					}
+					r.Check(up == "", rule, an.FnKey(fn)+"/Unix", p.Pos(c.Pos()),
+						"a millisecond count is not obtained by scaling Unix() seconds up (the sub-second part would be dropped; UnixMilli() is exact)", "scaled at "+up)
+					continue
+				}
+				if callee == nil || an.FnKey(callee) != "(time.Time).UnixNano" {
+					continue
+				}
+				n7++
+				scaled := ""
+				seen := map[ssa.Value]bool{}
+				var walk func(v ssa.Value, d int)
+				walk = func(v ssa.Value, d int) {
+					if d > 6 || seen[v] || v.Referrers() == nil {
+						return
+					}
+					seen[v] = true
+					for _, ref := range *v.Referrers() {
+						switch x := ref.(type) {
+						case *ssa.BinOp:
+							if x.Op == token.QUO || x.Op == token.SHR {
+								scaled = p.Pos(x.Pos())
+								return
+							}
+							walk(x, d+1)
+						case *ssa.Convert:
+							walk(x, d+1)
+						case *ssa.Phi:
+							walk(x, d+1)
+						}
+					}
+				}
+				walk(c, 0)
+				r.Check(scaled == "", rule, an.FnKey(fn)+"/UnixNano", p.Pos(c.Pos()),
+					"a millisecond or second count is not obtained by scaling UnixNano() (undefined outside 1678..2262; UnixMilli()/Unix() are exact for every representable instant)",
+					"scaled at "+scaled)
+			}
+		}
+	}
+	r.Analysed["Unix/UnixNano calls"] = n7
 }
